@@ -133,7 +133,7 @@ func runUnmarshalSeq(pkt bool, bufs [][]byte) Outcome {
 			if hh.Extension && len(ids) != len(hh.Extensions) && o.Fail == "" {
 				o.Fail = fmt.Sprintf("step %d: %d extension elements decoded, GetExtensionIDs lists %d", step, len(hh.Extensions), len(ids))
 			}
-			if hh.Extension && hh.ExtensionProfile != 0xBEDE && hh.ExtensionProfile != 0x1000 && !(len(ids) == 1 && ids[0] == 0) && o.Fail == "" {
+			if hh.Extension && hh.ExtensionProfile != 0xBEDE && !isTwoByte(hh.ExtensionProfile) && !(len(ids) == 1 && ids[0] == 0) && o.Fail == "" {
 				o.Fail = fmt.Sprintf("step %d: legacy extension block (profile %#04x): GetExtensionIDs = %v, expected [0]", step, hh.ExtensionProfile, ids)
 			}
 		}
